@@ -177,6 +177,16 @@ def simplify_parens(expression: exp.Expr, dialect: DialectType) -> exp.Expr:
     return expression
 
 
+def _is_conjunct(node: exp.Expr, conjunction: exp.Expr) -> bool:
+    """Whether `node` is one of the operands of `conjunction`, i.e. only ANDs and parentheses lie in between."""
+    parent = node.parent
+    while parent is not None and parent is not conjunction:
+        if not isinstance(parent, (exp.And, exp.Paren)):
+            return False
+        parent = parent.parent
+    return parent is conjunction
+
+
 def propagate_constants(expression, root=True):
     """
     Propagate constants for conjunctions in DNF:
@@ -194,7 +204,7 @@ def propagate_constants(expression, root=True):
     ):
         constant_mapping = {}
         for expr in walk_in_scope(expression, prune=lambda node: isinstance(node, exp.If)):
-            if isinstance(expr, exp.EQ):
+            if isinstance(expr, exp.EQ) and _is_conjunct(expr, expression):
                 l, r = expr.left, expr.right
 
                 # TODO: create a helper that can be used to detect nested literal expressions such
